@@ -22,6 +22,16 @@ struct InIt
     bool operator!=(const InIt& o) const { return p != o.p; }
 };
 
+// minimal range over a contiguous buffer (selects the assign_range / assign_string(range) overloads)
+template<typename T>
+struct Rng
+{
+    const T* b;
+    const T* e;
+    const T* begin() const { return b; }
+    const T* end() const { return e; }
+};
+
 #define SBV_DYN(ID, SCHEMA, MSG)                                                                                       \
     using D_##ID = decltype(std::declval<SCHEMA::messages::MSG<char>>().d());                                          \
     using DV_##ID = D_##ID::value_type;                                                                                \
@@ -55,6 +65,7 @@ struct InIt
     void r_d_assign_range_it_##ID(const D_##ID& d, const DV_##ID* first, const DV_##ID* last) { d.assign(first, last); } \
     void r_d_assign_ilist_##ID(const D_##ID& d, std::initializer_list<DV_##ID> ilist) { d.assign(ilist); }             \
     void r_d_assign_string_##ID(const D_##ID& d, const char* str) { d.assign_string(str); }                            \
+    void r_d_assign_range_##ID(const D_##ID& d, Rng<DV_##ID>& r) { d.assign_range(r); }                                \
     auto r_d_raw_##ID(const D_##ID& d) -> decltype(d.raw()) { return d.raw(); }
 
 SBV_DYN(l8c_le, dims16, D_l8_c)
